@@ -17,10 +17,10 @@ CLAIMED = {
          "n in 1..40 x branch factor 2..6 with identity, reversed, all rotations, all single transpositions and all permutations for n<=7 (8 thorough); every accessor of every replica's Tree is compared with the parent relation built from all replicas' Parent().",
          "Random permutations for n>8 are replaced by the stated deterministic families; bf>6 and n>40 not covered.", "§4 C17"),
  "C16": ("enum", "exhaustive enumeration of (n, view) for the stateless schemes and of (commit head, signer set, proposers, seed, query) for carousel/reputation on independent instances",
-         "Round-robin/fixed/tree-leader: n in 1..64, views 0..1024 (4096 thorough) plus 64 views around 2^32, 2^63 and 2^64-1, on every replica's own instance, incl. the bijection over any n consecutive views. Carousel: every head signer set >= quorum x last-f proposers x 3 seeds x 6 views around the activation point for n in {4,7}; reputation: all head sequences of length 2 (3 thorough), two instances compared.",
+         "Round-robin/fixed/tree-leader: n in 1..64, views 0..1024 (4096 thorough) plus 64 views around 2^32, 2^63 and 2^64-1, on every replica's own instance, incl. the bijection over any n consecutive views. Carousel: every head signer set >= quorum x last-f proposers x 3 seeds x 6 views around the activation point for n in {4,7}; reputation: all head sequences of length 2 (3 thorough), two instances compared. Carousel history independence: every sequence of <=5 (n=4) / 4 (n=7) operations {commit next block, ask view a-1 / a / a+1 around the activation view a} on one long-lived instance, each answer compared with an instance created at that moment; plus instances asked before the commit and in descending order.",
          "Carousel/reputation signer sets are structurally valid quorums (validity of the signatures is C02's subject); windows crossing the uint64 wrap are excluded.", "§4 C16"),
  "C14": ("seqmc+schedmc", "exhaustive operation-sequence enumeration on the real queue / EventLoop against a reference deque and FIFO/once/priority/deferral invariants; preemption-bounded schedule enumeration for concurrent producers",
-         "Queue: every push/pop sequence of length <= 2c+4 for capacities 1..4 (6 thorough) against a drop-oldest deque. EventLoop: every operation sequence to depth 6 (7 thorough) over 15 operations (add, defer, register plain/priority/run-in-add/adding/unregistering handlers, unregister incl. stale double calls, tick) on capacities 64 and 2; overflow reports compared with the oldest pending events. Concurrent: 2-3 producers, the consumer in Run and a canceller under the controlled scheduler, <=2 (3) preemptions, incl. overflow at capacity 2.",
+         "Queue: every push/pop sequence of length <= 2c+4 for capacities 1..4 (6 thorough) against a drop-oldest deque. EventLoop: every operation sequence to depth 6 (7 thorough) over 16 operations (add, defer, register plain/priority/run-in-add/adding/unregistering/re-deferring handlers, unregister incl. stale double calls, tick) on capacities 64 and 2; overflow reports compared with the oldest pending events. Concurrent: 2-3 producers, the consumer in Run and a canceller under the controlled scheduler, <=2 (3) preemptions, incl. overflow at capacity 2.",
          "Handler order inside one priority class and handlers (un)registered during the dispatch of the same event are unspecified by the property and treated as don't-care.", "§4 C14"),
  "C08": ("seqmc", "explicit-state search over timeout-message sequences on a real wired Synchronizer (successor = replay on a fresh replica + 1 message), canonical-state merging, oracle = per-view set of correctly signed senders",
          "All sequences over an alphabet of 15-25 timeout messages (every sender x views {v0-1,v0,v0+1,v0+50}, own local timeout, relayed / wrong-view / unsigned view signatures, garbage / absent message signatures and missing QC under the aggregate rule, sync info carrying a TC) delivered to one real replica: unmerged to depth 3 (4) and with canonical-state merging to depth 5-7 (7-9 thorough), both timeout rules, replica at and ahead of the stale view, cache on/off, n=4 (n=7 thorough). Every emitted certificate is verified by all other replicas and fed to a fresh replica.",
@@ -38,7 +38,7 @@ CLAIMED = {
          "Every forest of <=3 (4 thorough) blocks with parent and QC link each in {genesis, earlier block, missing}, views <=4 (5) increasing along both links, all presentation orders, per-block mode {proposal flow, fetched}, VoteRule view argument {v-1,v,v+1}, AggQC absent/present; plus the two-branch family (main chain + one fork, every fork point and view interleaving, one optional gap) up to 7 (9) blocks. Compared per step: vote verdict, decided block, lock, and the structural clause on every decision.",
          "Random forests beyond the bound are not sampled (outside this family); QC objects carry the view of the block they name.", "§4 C04"),
  "C12": ("enum", "bounded-exhaustive product grammar of protocol objects through ToProto -> Marshal -> Unmarshal -> FromProto, oracle = identity of hash / bytes-to-sign / participants / verdict",
-         "Signatures (absent, empty, 1..n signers, non-prefix signer set), partial certs, QCs (views 0/1/max x hashes zero/genesis/real), TCs, aggregate QCs with 0..n entries incl. ids 0 and 2^32-1, sync info in all 8 presence combinations, timeout messages with/without message signature, blocks over parent x batch (nil, empty, 1, 3 commands incl. empty data) x QC x view x proposer x 6 timestamps (epoch, 1ns, pre-1970, sub-microsecond, non-UTC zone, year 9999), proposals with/without AggQC; blocks additionally fetched by hash through the quorum function; three schemes, n in {1,2,4} ({1,2,3,4,7} thorough).",
+         "Signatures (absent, empty, 1..n signers, non-prefix signer set), partial certs, QCs (views 0/1/max x hashes zero/genesis/real), TCs, aggregate QCs with 0..n entries incl. ids 0 and 2^32-1, sync info in all 16 combinations of QC {absent, quorum, signature-less genesis, signature-less other block} x TC x AggQC, timeout messages with/without message signature, blocks over parent x batch (nil, empty, 1, 3 commands incl. empty data) x QC x view x proposer x 6 timestamps (epoch, 1ns, pre-1970, sub-microsecond, non-UTC zone, year 9999), proposals with/without AggQC; blocks additionally fetched by hash through the quorum function; three schemes, n in {1,2,4} ({1,2,3,4,7} thorough).",
          "The product is thinned by a fixed parity rule (every value still meets every other); sender id of a timeout is taken from the connection as the server does.", "§4 C12"),
  "C18": ("enum+seqmc", "exhaustive draining of the real scenario generator for every setting in the box (below a stated cap) and exhaustive enumeration of commit-log combinations through the real verdict function",
          "Generator: all 204 settings with nodes<=5, twins<=2, partitions<=3, views<=4 whose announced count <= 2*10^5 (3*10^6 thorough): yielded == announced, no repetition, two generators agree, EOF is sticky, every view well-formed, shuffle with seeds 0..2 reproducible and a permutation, JSON writer/reader round trip. Executor: all 40^k combinations of commit logs (length<=3 over 3 blocks) for 4 layouts of up to 4 nodes incl. a twin pair vs. a reference 'first position where two non-twin replicas differ'.",
